@@ -49,7 +49,7 @@ CHECKS["C09"] = dict(
     text="For each of the six erase manipulators, after any history including none at all: the reference terminal's cells in the region the manipulator's name denotes become default-attribute blanks in all three erase behaviours (plain, background-colour-erase, current-rendition), no other cell of either buffer changes, cursor and pending-wrap flag are untouched, the rendition is default afterwards and the belief stays true, so later text is rendered exactly (C01 from the resulting state). On the pinned tree the check found erases on an unknown rendition sending no SGR 0 (fixed). Additionally (C09_erase_any_size / C09_erase_after_any_size) the same statement holds when only the rendition half of the belief is true: no set_size, a wrong set_size, a false belief about the cursor - the region is relative to where the terminal's cursor really is.",
     note=VTNOTE, technique="Lean 4 proof (ED/EL lemmas on the reference VT + simulation invariant); every erase x cursor x preceding-state sweep as tie", ref="§5 C09")
 CHECKS["C11"] = dict(
-    text="A specification-level record of the most recent request of each kind (visibility, buffer, mouse, title) is proved consistent with the reference terminal's DEC private modes 25/47/1000/1003 and title after every in-domain history interleaved with text/cursor/erase/resize operations, for all 16 capability combinations and unknown initial modes: supported modes follow the last request despite elision, unsupported modes and never-requested kinds keep the terminal's own value, nothing is sent without the capability, BEL/ST terminator by capability, disable mirrors enable. Additionally (C11_modes_any_size / C11_modes_readme, via rstep_modes) the same consistency holds with no assumption relating positions to sizes (README use without set_size, lying set_size, silent terminal resize, moves to any non-negative position). run_noMode_modes / C11_draw_keeps_modes / C11_hide_then_draw: operations that are not mode requests - in particular every screen.draw of every well-formed canvas from every screen state - leave all four modes as they were.",
+    text="A specification-level record of the most recent request of each kind (visibility, buffer, mouse, title) is proved consistent with the reference terminal's DEC private modes 25/47/1000/1003 and title after every in-domain history interleaved with text/cursor/erase/resize operations, for all 16 capability combinations and unknown initial modes: supported modes follow the last request despite elision, unsupported modes and never-requested kinds keep the terminal's own value, nothing is sent without the capability, BEL/ST terminator by capability, disable mirrors enable. Additionally (C11_modes_any_size / C11_modes_readme, via rstep_modes) the same consistency holds with no assumption relating positions to sizes (README use without set_size, lying set_size, silent terminal resize, moves to any non-negative position).",
     note=VTNOTE, technique="Lean 4 proof: per-event mode-effect lemma + refinement to an abstract 'last requested' spec by induction; exhaustive capability x mode-sequence sweep as tie", ref="§5 C11")
 CHECKS["C13"] = dict(
     text="When the record names the element last written or the attribute left by an erase (and by the simulation invariant the terminal really has that rendition and character set in effect), an element with the same attribute and charset is transmitted as its glyph bytes only (also inside strings, also after an erase); moving to the position the cursor is known - and by the invariant really is - at, and requesting the visibility already in effect, transmit nothing.",
